@@ -18,7 +18,7 @@ RULE = (
     "(-0.0, 1e308, 5e-324); distinct = hash of the configuration"
 )
 ASSUMPTIONS = ["no NaN/Infinity and no lone surrogates (not JSON-representable)", "attribute keys as in C10"]
-GATES = ["mon.C11.export", "mon.C11.write", "mon.C11.import", "mon.C11.read", "C11.maxlevel_forwarded", "C11.custom_dictexporter", "C11.importer_kwargs", "C11.non_ascii", "C11.realfile", "C11.exporter_reused"]
+GATES = ["mon.C11.export", "mon.C11.write", "mon.C11.import", "mon.C11.read", "C11.maxlevel_forwarded", "C11.custom_dictexporter", "C11.importer_kwargs", "C11.non_ascii", "C11.realfile", "C11.exporter_reused", "C11.handle_not_at_start"]
 
 
 def plan(tier, seed, jobs):
@@ -129,6 +129,26 @@ def check_one(ctx, lib, rng, par, attrs, kind, case):
                     if r:
                         ctx.violation("C11/read/tree", "read-equals-import", dict(cfg, imode=imode), expected=repr(want)[:500], observed=r[:500])
                         return False
+                    if imode == "nodecls":
+                        # the document is one part of a larger stream: the application wrote / consumed a header line on the same handle
+                        ctx.count("C11.handle_not_at_start")
+                        buf = io.StringIO()
+                        buf.write("# header line\n")
+                        exporter.write(nodes[s], buf)
+                        if buf.getvalue() != "# header line\n" + exp_text:
+                            ctx.violation("C11/write/after-header", "write-equals-export", cfg, expected=("# header line\n" + exp_text)[:600], observed=buf.getvalue()[:600])
+                            return False
+                        buf.seek(0)
+                        buf.readline()
+                        try:
+                            root3 = imp.read(buf)
+                        except BaseException as e:  # noqa: B902
+                            ctx.violation("C11/read/after-header/%s" % type(e).__name__, "read-equals-import", dict(cfg, imode=imode), expected="tree", observed=repr(e)[:300])
+                            return False
+                        r = c10.compare_tree(root3, want, cls)
+                        if r:
+                            ctx.violation("C11/read/after-header", "read-equals-import", dict(cfg, imode=imode), expected=repr(want)[:500], observed=r[:500])
+                            return False
         # one exporter object re-used while its public attributes are reassigned
         ctx.count("C11.exporter_reused")
         je = JsonExporter(**jopts)
